@@ -23,6 +23,8 @@ pub struct GenCfg {
     pub self_dep_bias: u32,
     /// several `pytest_plugins = ...` assignments per file (the last one wins)
     pub multi_plugin_assignments: bool,
+    /// tests may carry parameters with default values named like fixtures
+    pub defaulted_params: bool,
 }
 
 impl Default for GenCfg {
@@ -41,6 +43,7 @@ impl Default for GenCfg {
             max_items: 4,
             self_dep_bias: 1,
             multi_plugin_assignments: false,
+            defaulted_params: false,
         }
     }
 }
@@ -109,8 +112,9 @@ fn test_spec(cfg: &GenCfg) -> impl Strategy<Value = TestSpec> {
         prop_oneof![4 => Just(Vec::new()), 1 => names_vec(cfg, 2)],
         prop_oneof![5 => Just(false), 1 => Just(true)],
         prop_oneof![3 => Just(Vec::new()), 1 => names_vec(cfg, 2)],
+        if cfg.defaulted_params { prop_oneof![2 => Just(Vec::new()), 1 => names_vec(cfg, 2)].boxed() } else { Just(Vec::new()).boxed() },
     )
-        .prop_map(|(params, usefixtures, indirect, is_async, body_uses)| TestSpec { suffix: 0, params, usefixtures, indirect, is_async, body_uses })
+        .prop_map(|(params, usefixtures, indirect, is_async, body_uses, defaulted)| TestSpec { suffix: 0, params, usefixtures, indirect, is_async, body_uses, defaulted })
 }
 
 fn import_spec(cfg: &GenCfg) -> impl Strategy<Value = ImportSpec> {
